@@ -370,3 +370,24 @@ Definition pc_code (p : pc) : Z :=
   | PSlow _ _ => 13 | PSleep _ _ => 14 | PSlowLoad _ _ _ => 15 | PRetV v => if v =? 0 then 16 else 17 | PNfPush => 18
   | PNfHead _ => 19 | PNfLoad => 20 | PNfCas _ _ => 21
   end.
+
+(* ---- concrete schedules used by Properties_C07 (witness of the early notification; non-vacuity) ---- *)
+Definition ev k o off sz a b ok := mkEv k o 1 off sz a b ok.
+Definition early_schedule : list (Z * event) :=
+  [ (1, ev 100 0 0 0 1 0 1); (1, ev 7 2 0 4 0 4 1); (1, ev 101 0 0 0 0 0 1);                     (* enter *)
+    (1, ev 100 0 0 0 4 0 1); (1, ev 3 3 16 8 0 1000 1); (1, ev 2 0 8 8 0 1000 1);                  (* notify A ... *)
+    (1, ev 1 0 0 8 4294967292 4294967292 1); (1, ev 5 3 0 8 4294967292 4294967294 1); (1, ev 101 0 0 0 0 0 1);
+    (2, ev 100 0 0 0 2 0 1); (2, ev 6 3 0 8 4294967294 4 1);                                       (* last leave: count -> 0 *)
+    (1, ev 100 0 0 0 1 0 1); (1, ev 7 2 0 4 2 4 1); (1, ev 101 0 0 0 0 0 1);                      (* enter again *)
+    (1, ev 100 0 0 0 4 1 1); (1, ev 3 3 16 8 1000 2000 1); (1, ev 101 0 0 0 0 0 1);                (* notify B behind A *)
+    (2, ev 4 0 0 8 8589934590 4294967296 0); (2, ev 4 0 0 8 8589934590 8589934588 1);               (* leaver clears NOTIFS *)
+    (2, ev 1 2 8 8 1000 1000 1); (2, ev 2 0 8 8 0 0 1); (2, ev 3 3 16 8 2000 0 1);                   (* detaches A and B *)
+    (2, ev 3 3 24 8 0 1000 0); (2, ev 3 3 24 8 1000 2000 1) ].                                       (* submits both *)
+
+Definition demo_schedule : list (Z * event) :=
+  [ (1, ev 100 0 0 0 1 0 1); (1, ev 7 2 0 4 0 4 1); (1, ev 101 0 0 0 0 0 1);
+    (3, ev 100 0 0 0 3 18446744073709551615 1); (3, ev 1 0 0 8 4294967292 4294967292 1);
+    (3, ev 5 0 0 8 4294967292 4294967293 1); (3, ev 32 0 4 0 0 0 1);
+    (2, ev 100 0 0 0 2 0 1); (2, ev 6 3 0 8 4294967293 4 1); (2, ev 4 0 0 8 4294967297 4294967296 1);
+    (2, ev 34 0 4 0 2147483647 0 1); (2, ev 101 0 0 0 0 0 1);
+    (3, ev 33 0 4 0 0 0 1); (3, ev 1 2 4 4 1 1 1); (3, ev 101 0 0 0 0 0 1) ].
